@@ -17,9 +17,11 @@ Tie to the source:
   on written files and on version texts.
 """
 import contextlib
+import copy
 import io
 import json
 import math
+import os
 import re
 import string
 from fractions import Fraction
@@ -2380,6 +2382,786 @@ def key_oracle(ctx, rows):
     ctx.count("keys:alt_combinations", n)
 
 
+# ----------------------------------------------------------------------------
+# parse histories: the parsed fields are a function of the text and of the version only.
+# call -> edit one parsed line in place -> call again; every live object is judged after EVERY step from
+# its own text and the edits made to IT alone (a fresh object built by the constructors from the generated
+# values -- never by a parser -- with the same edits applied), and the same history runs through the
+# pure machine of Model/C07_Hist.v (hist_check).
+
+HIST_OWNERS = (None, "snote", "note", "stime", "ptime")
+HIST_TERMS, HIST_KEPT = [], []
+
+
+def mutable_codec(c):
+    return c in ("CList", "CListIn", "CListInt", "CListIntIn", "CFrac", "CFracRat") or c.startswith("(CKey") or c.startswith("(CTime")
+
+
+def g_edit(rng, v, ints=False):
+    """An in-place edit of the mutable object v held by a field (chosen by its Python type), or None."""
+    L0, L1, U, B, IM = mods()
+    if isinstance(v, list):
+        if v and all(isinstance(x, U.FractionalSymbolicDuration) for x in v):
+            return None
+        ints = ints or (bool(v) and all(not isinstance(x, str) for x in v))
+        x = (lambda: rng.choice([0, 7, rng.randint(0, 5000)])) if ints else (lambda: rng.choice(ATTRS + WORDS))
+        op = rng.choice(["append", "append", "append", "insert0", "pop", "reverse", "clear", "sort", "set0", "iadd", "remove0"])
+        if op in ("append", "insert0", "set0"):
+            return [op, x()]
+        if op == "iadd":
+            return [op, [x(), x()]]
+        return [op]
+    if isinstance(v, U.FractionalSymbolicDuration):
+        r = rng.random()
+        if r < 0.3:
+            return ["attr", "numerator", rng.choice([1, 3, 5, 7, rng.randint(1, 64)])]
+        if r < 0.55:
+            return ["attr", "denominator", rng.choice([2, 4, 8, 16, 32, 3, 12])]
+        if r < 0.7:
+            return ["attr", "tuple_div", rng.choice([None, 3, 5, 7])]
+        return ["comp_append", [rng.choice([1, 3]), rng.choice([8, 16, 32, 64]), rng.choice([None, None, 3])]]
+    if isinstance(v, U.MatchKeySignature):
+        if rng.random() < 0.6:
+            return ["attr", "fifths", rng.randint(-7, 7)]
+        return ["attr", "mode", rng.choice(["major", "minor"])]
+    if isinstance(v, U.MatchTimeSignature):
+        r = rng.random()
+        if v.other_components and r < 0.3:
+            return ["other_append", [rng.choice([2, 3]), rng.choice([4, 8]), None]]
+        if v.other_components and r < 0.5:
+            return ["other_attr", rng.randrange(len(v.other_components)), "numerator", rng.choice([5, 7, 9])]
+        if r < 0.8:
+            return ["attr", "numerator", rng.choice([2, 3, 5, 6, 7, 9, 12])]
+        return ["attr", "denominator", rng.choice([2, 4, 8, 16])]
+    if isinstance(v, U.MatchTempoIndication):
+        return ["attr", "value", " ".join(rng.choice(WORDS) for _ in range(rng.randint(1, 3)))]
+    return None
+
+
+def apply_edit(line, owner, fname, op):
+    """Carry out one edit on a line object (of the implementation under test or of the oracle's fresh copy)."""
+    L0, L1, U, B, IM = mods()
+    sub = sub_of(line, owner)
+    if op[0] == "set":  # a new value for the field of THIS line object
+        setattr(sub, fname, to_py(op[1]))
+        return
+    v = getattr(sub, fname)
+    k = op[0]
+    if k == "append":
+        v.append(op[1])
+    elif k == "insert0":
+        v.insert(0, op[1])
+    elif k == "iadd":
+        v += list(op[1])
+    elif k == "reverse":
+        v.reverse()
+    elif k == "clear":
+        del v[:]
+    elif k == "sort":
+        v.sort(key=str)
+    elif k == "pop":
+        if v:
+            v.pop()
+    elif k == "remove0":
+        if v:
+            del v[0]
+    elif k == "set0":
+        if v:
+            v[0] = op[1]
+    elif k == "attr":
+        setattr(v, op[1], op[2])
+    elif k == "comp_append":
+        c = tuple(op[1])
+        if v.add_components is None:
+            v.add_components = [(int(v.numerator), int(v.denominator), None if v.tuple_div is None else int(v.tuple_div)), c]
+        else:
+            v.add_components.append(c)
+    elif k == "other_append":
+        v.other_components.append(U.FractionalSymbolicDuration(*op[1]))
+    elif k == "other_attr":
+        if op[1] < len(v.other_components or []):
+            setattr(v.other_components[op[1]], op[2], op[3])
+    else:
+        raise ValueError(op)
+
+
+def describe_edit(owner, fname, op):
+    f = "%s%s" % ((owner + ".") if owner else "", fname)
+    if op[0] == "set":
+        return "%s = %r" % (f, to_py(op[1]) if op[1][0] in ("int", "str", "list", "listint", "none") else op[1])
+    if op[0] == "attr":
+        return "%s.%s = %r" % (f, op[1], op[2])
+    if op[0] == "comp_append":
+        return "%s.add_components.append(%r)" % (f, tuple(op[1]))
+    if op[0] == "other_append":
+        return "%s.other_components.append(FractionalSymbolicDuration%r)" % (f, tuple(op[1]))
+    if op[0] == "other_attr":
+        return "%s.other_components[%d].%s = %r" % (f, op[1], op[2], op[3])
+    return "%s.%s(%s)" % (f, {"insert0": "insert 0,", "iadd": "+=", "clear": "clear", "set0": "[0] =", "remove0": "del [0]"}.get(op[0], op[0]),
+                          ", ".join(repr(x) for x in op[1:]))
+
+
+def hist_fresh(case, which, edits):
+    """The line `which` of the case as a FRESH object (constructors only, no parser) with the given edits."""
+    spec = case["lines"][which]
+    E = construct(spec["kind"], tuple(spec["ver"]), {(o, n): to_py(t) for o, n, t in spec["fields"]})
+    for f in schemas()[(spec["kind"], tuple(spec["ver"]))][2]:  # a d-decimal field holds, after the text, the d-decimal rounding of the generated float
+        d = fix_digits(f.codec)
+        if d is not None:
+            setattr(sub_of(E, f.owner), f.name, float("%.*f" % (d, getattr(sub_of(E, f.owner), f.name))))
+    for owner, fname, op in edits:
+        apply_edit(E, owner, fname, op)
+    return E
+
+
+def hist_text(case, which):
+    return hist_fresh(case, which, []).matchline
+
+
+def hist_parse(case, which, level):
+    L0, L1, U, B, IM = mods()
+    spec = case["lines"][which]
+    V = U.Version(*spec["ver"])
+    text = hist_text(case, which)
+    if level == "file":
+        methods = IM.FROM_MATCHLINE_METHODSV1 if V >= U.Version(1, 0, 0) else IM.FROM_MATCHLINE_METHODSV0
+        return quiet_call(IM.parse_matchline, text, methods, V), text
+    cls = type(hist_fresh(case, which, []))
+    return quiet_call(cls.from_matchline, text, version=V), text
+
+
+def hist_fields(line):
+    """[(owner, field name, value)] of any line object, by inspection (for lines made by to_v1)."""
+    out = []
+    for o in HIST_OWNERS:
+        if o is None or hasattr(line, o):
+            s = sub_of(line, o)
+            for fn in getattr(s, "field_names", ()):
+                if fn in getattr(s, "__dict__", {}):
+                    out.append((o, fn, getattr(s, fn)))
+    return out
+
+
+def safe_text(line):
+    try:
+        return line.matchline
+    except Exception as e:
+        return e
+
+
+def exec_parse_hist(case, observe=None):
+    """Run the steps on the implementation; after every step judge every live line object.  Returns None or the
+    complaint.  observe: list that receives, per step, what the Coq machine needs (None when a value has a shape the
+    model has no term for)."""
+    L0, L1, U, B, IM = mods()
+    env = {}      # name -> dict(obj, which, edits, step, text | conv (name of the converted line, edits at that time), group, tainted)
+    order = []
+    done = []
+
+    conv_text = {}   # (line, edits of the converted object at that time) -> text of the first conversion
+
+    def expected(e):
+        if "conv" in e:  # the 1.0.0 line as it was when to_v1 returned it (an independent copy) with its own edits
+            q = copy.deepcopy(e["snapshot"])
+            for owner, fname, op in e["edits"]:
+                apply_edit(q, owner, fname, op)
+            return q
+        return hist_fresh(case, e["which"], e["edits"])
+
+    def judge(upto):
+        for name in order:
+            e = env[name]
+            if e["tainted"]:
+                continue
+            X = e["obj"]
+            spec = case["lines"][e["which"]]
+            try:
+                E = expected(e)
+            except Exception:
+                continue  # the edited state cannot be built / converted by the constructors either: nothing to compare with
+            origin = "%s = %s" % (name, ("to_v1(%s)" % e["of"]) if "conv" in e else "the line parsed from %r at step %d" % (e["text"], e["step"]))
+            if "conv" not in e:
+                nm, elems, fields = schemas()[(spec["kind"], tuple(spec["ver"]))]
+                tags = {(o, n): t for o, n, t in spec["fields"]}
+                for f in fields:
+                    try:
+                        a, b = getattr(sub_of(E, f.owner), f.name), getattr(sub_of(X, f.owner), f.name)
+                    except Exception as ex:
+                        a, b = None, ex
+                    if not field_equal(a, b, f, tags[(f.owner, f.name)]):
+                        own = "; ".join(describe_edit(*ed) for ed in e["edits"]) or "nothing"
+                        return ("after step %d (%s): %s holds %s = %s, but its text and what was done to this object alone (%s) give %s"
+                                % (upto, done[-1], origin, f.name, str(b), own, str(a)))
+            tE, tX = safe_text(E), safe_text(X)
+            if isinstance(tE, str) and tX != tE:
+                own = "; ".join(describe_edit(*ed) for ed in e["edits"]) or "nothing"
+                return ("after step %d (%s): %s writes %r, but its text and what was done to this object alone (%s) give %r"
+                        % (upto, done[-1], origin, tX if isinstance(tX, str) else "<%r>" % (tX,), own, tE))
+        return None
+
+    for k, st in enumerate(case["steps"]):
+        op = st[0]
+        try:
+            if op == "parse":
+                _, name, which, level = st
+                if name in env or which not in case["lines"]:
+                    return None
+                p, text = hist_parse(case, which, level)
+                done.append("%s = parse %r (%s level)" % (name, text, level))
+                want = type(hist_fresh(case, which, []))
+                if p is None or type(p) is not want:
+                    return "after step %d (%s): the text is read as %s, not as %s" % (k, done[-1], type(p).__name__, want.__name__)
+                env[name] = dict(obj=p, which=which, edits=[], step=k, text=text, group=name, tainted=False)
+                order.append(name)
+            elif op == "probe":
+                # directed search: if two slots of live parsed lines hold ONE mutable object (or one component list), edit it in
+                # place through the first slot -- judged, as every edit, by what the other slot shows afterwards
+                found = hist_shared_slot(case, env, order)
+                if found is None:
+                    done.append("(no object shared between two fields)")
+                    if observe is not None:
+                        observe.append(("nop",))
+                    continue
+                st = ["edit"] + found
+                op = "edit"
+            if op == "edit":
+                _, name, owner, fname, eop = st
+                if name not in env:
+                    return None
+                e = env[name]
+                try:
+                    apply_edit(e["obj"], owner, fname, eop)
+                except (AttributeError, IndexError, TypeError):
+                    return None  # (only after shrinking removed the step that made the field this shape)
+                e["edits"].append((owner, fname, eop))
+                done.append("%s.%s" % (name, describe_edit(owner, fname, eop)))
+                for n2 in order:  # to_v1 hands the field objects of the old line to the new one: not judged after such an edit
+                    if n2 != name and env[n2]["group"] == e["group"]:
+                        env[n2]["tainted"] = True
+            elif op == "to_v1":
+                _, qname, name = st
+                if name not in env or qname in env or "conv" in env[name]:
+                    return None
+                e = env[name]
+                q = quiet_call(L1.to_v1, e["obj"])
+                done.append("%s = to_v1(%s)" % (qname, name))
+                env[qname] = dict(obj=q, which=e["which"], edits=[], step=k, conv=list(e["edits"]), of=name, group=e["group"], tainted=e["tainted"],
+                                  snapshot=copy.deepcopy(q))
+                order.append(qname)
+                if not e["tainted"]:
+                    # converting equal lines gives equal 1.0.0 lines: the same line converted earlier in this history, and the
+                    # line built by the constructors (no parser) with the same edits
+                    tq = safe_text(q)
+                    key = (e["which"], json.dumps(e["edits"], sort_keys=True, default=str))
+                    refs = [("the first conversion of an equal line in this history", conv_text.get(key))]
+                    try:
+                        q0 = quiet_call(L1.to_v1, hist_fresh(case, e["which"], e["edits"]))
+                        if q0 is not q:
+                            refs.append(("to_v1 of the equal line built by the constructors", safe_text(q0)))
+                    except Exception:
+                        pass
+                    for why, t0 in refs:
+                        if isinstance(t0, str) and tq != t0:
+                            return ("after step %d (%s): the converted line writes %r, but %s wrote %r"
+                                    % (k, done[-1], tq if isinstance(tq, str) else "<%r>" % (tq,), why, t0))
+                    if isinstance(tq, str):
+                        conv_text.setdefault(key, tq)
+            elif op != "parse":
+                return None
+        except Exception as ex:
+            if op == "parse":
+                return "after step %d: parsing %r (%s level) raises %r" % (k, hist_text(case, st[2]), st[3], ex)
+            if op == "to_v1":
+                return None  # whether a line can be converted is run_to_v1's business
+            raise
+        bad = judge(k)
+        if bad:
+            return bad
+        if observe is not None:
+            observe.append(hist_observation(case, env, order, st))
+    if observe is not None:
+        observe.append(("final", [hist_values(case, env[n]) if ("conv" not in env[n] and not env[n]["tainted"]) else None
+                                  for n in order if "conv" not in env[n]]))
+    return None
+
+
+def hist_shared_slot(case, env, order):
+    """[name, owner, field, edit] for the first mutable object (a list, a duration, a key / time signature, a tempo indication, the
+    component list of a duration or of a time signature) that two fields of live parsed lines hold in common, else None.  Lines made
+    by to_v1 and their sources share field objects in the unchanged tree and are left out."""
+    L0, L1, U, B, IM = mods()
+    seen = {}
+    for name in order:
+        e = env[name]
+        if "conv" in e or e["tainted"] or any(env[n]["group"] == e["group"] for n in order if n != name):
+            continue
+        spec = case["lines"][e["which"]]
+        for f in schemas()[(spec["kind"], tuple(spec["ver"]))][2]:  # the fields the line is written from (some classes keep copies elsewhere)
+            o, fn = f.owner, f.name
+            v = getattr(sub_of(e["obj"], o), fn, None)
+            cands = []
+            if isinstance(v, list):
+                ints = bool(v) and all(not isinstance(x, str) for x in v)
+                cands.append((id(v), ["append", 7 if ints else "x"]))
+            elif isinstance(v, U.FractionalSymbolicDuration):
+                cands.append((id(v), ["attr", "numerator", int(v.numerator) + 1]))
+                if v.add_components is not None:
+                    cands.append((id(v.add_components), ["comp_append", [1, 64, None]]))
+            elif isinstance(v, U.MatchKeySignature):
+                cands.append((id(v), ["attr", "fifths", (int(v.fifths) + 8) % 15 - 7]))
+            elif isinstance(v, U.MatchTimeSignature):
+                cands.append((id(v), ["attr", "numerator", int(v.numerator) + 1]))
+                if isinstance(v.other_components, list):
+                    cands.append((id(v.other_components), ["other_append", [2, 4, None]]))
+            elif isinstance(v, U.MatchTempoIndication):
+                cands.append((id(v), ["attr", "value", str(v.value) + " x"]))
+            for key, eop in cands:
+                if key in seen and seen[key][:3] != [name, o, fn]:
+                    return seen[key]
+                seen.setdefault(key, [name, o, fn, eop])
+    return None
+
+
+def hist_values(case, e, line=None):
+    """Coq terms of all fields of a parsed line (or of the oracle's fresh copy)."""
+    spec = case["lines"][e["which"]]
+    nm, elems, fields = schemas()[(spec["kind"], tuple(spec["ver"]))]
+    X = e["obj"] if line is None else line
+    return [c_value(getattr(sub_of(X, f.owner), f.name), f.codec, True) for f in fields]
+
+
+def hist_observation(case, env, order, st):
+    """One step for the Coq machine: ("parse", which, values of the new object) | ("edit", object index, field index,
+    new value of the field on the oracle's fresh copy) | ("nop",)."""
+    parsed = [n for n in order if "conv" not in env[n]]
+    if st[0] == "parse":
+        return ("parse", st[2], hist_values(case, env[st[1]]))
+    if st[0] == "edit" and "conv" not in env[st[1]]:
+        e = env[st[1]]
+        spec = case["lines"][e["which"]]
+        nm, elems, fields = schemas()[(spec["kind"], tuple(spec["ver"]))]
+        fi = [(f.owner, f.name) for f in fields].index((st[2], st[3]))
+        E = hist_fresh(case, e["which"], e["edits"])
+        return ("edit", parsed.index(st[1]), fi, c_value(getattr(sub_of(E, st[2]), st[3]), fields[fi].codec, True), st[4][0] == "set")
+    return ("nop",)
+
+
+def exec_parse_hist_full(case, observe=None):
+    """The histories that ran earlier in the same process (state at module level outlives a history), then the case."""
+    for pc in case.get("prelude", ()):
+        try:
+            exec_parse_hist(pc)
+        except Exception:
+            pass
+    return exec_parse_hist(case, observe)
+
+
+def _hist_shrink_main():
+    """Runs in a FRESH interpreter (so that nothing an earlier history left at module level is there): reads a case
+    with its prelude from stdin, evaluates every candidate of the shrinking in a forked child of the still untouched
+    process, prints {"reproduced", "case", "complaint"}."""
+    import os
+    import sys
+    case = json.load(sys.stdin)
+    core.setup_import_path()
+    schemas()
+
+    def complaint(c):
+        r, w = os.pipe()
+        pid = os.fork()
+        if pid == 0:
+            os.close(r)
+            out = ""
+            try:
+                out = exec_parse_hist_full(c) or ""
+            except BaseException as e:
+                out = ""
+            try:
+                os.write(w, out.encode("utf-8", "replace")[:60000])
+            finally:
+                os._exit(0)
+        os.close(w)
+        buf = b""
+        while True:
+            chunk = os.read(r, 65536)
+            if not chunk:
+                break
+            buf += chunk
+        os.close(r)
+        os.waitpid(pid, 0)
+        return buf.decode("utf-8", "replace")
+
+    pre = case.get("prelude", [])
+    if complaint(dict(case, prelude=[])):
+        case = dict(case, prelude=[])
+    elif pre and complaint(case):
+        keep = core.ddmin(pre, lambda sub: bool(complaint(dict(case, prelude=sub))))
+        case = dict(case, prelude=keep)
+        if len(keep) == 1:  # fewer steps of the one earlier history that matters
+            st = core.ddmin(keep[0]["steps"], lambda sub: bool(complaint(dict(case, prelude=[dict(keep[0], steps=sub)]))))
+            case = dict(case, prelude=[dict(keep[0], steps=st)])
+    else:
+        print(json.dumps({"reproduced": False}))
+        return
+    st = core.ddmin(case["steps"], lambda sub: bool(complaint(dict(case, steps=sub))))
+    if complaint(dict(case, steps=st)):
+        case = dict(case, steps=st)
+    print(json.dumps({"reproduced": True, "case": case, "complaint": complaint(case)}))
+
+
+def hist_shrink(case):
+    """Shrink a failing history in a fresh process under a CPU-time limit; None if that process does not show it."""
+    import os
+    import resource
+    import subprocess
+    import sys
+    here = os.path.dirname(os.path.abspath(__file__))
+    code = ("import sys; sys.path[:0] = [%r, %r]; import core; core.setup_import_path(); from props import c07; c07._hist_shrink_main()"
+            % (os.path.dirname(here), here))
+
+    def limit():
+        resource.setrlimit(resource.RLIMIT_CPU, (120, 130))
+    try:
+        r = subprocess.run([sys.executable, "-c", code], input=json.dumps(case), capture_output=True, text=True, preexec_fn=limit)
+        line = [l for l in r.stdout.splitlines() if l.startswith("{")]
+        return json.loads(line[-1]) if line else None
+    except Exception:
+        return None
+
+
+def g_parse_hist(rng, by_kind, keys_mut, keys_all):
+    """One history: two lines A, B sharing field texts; parses before and after in-place edits; to_v1 copies."""
+    L0, L1, U, B, IM = mods()
+    S = schemas()
+    pool = keys_mut if rng.random() < 0.85 else keys_all
+    base_a = rng.choice(sorted(set(k[0].partition(":")[0] for k in pool)))  # every kind of line equally often (two thirds of the schemas are info attributes)
+    ka = rng.choice([k for k in pool if k[0].partition(":")[0] == base_a])
+    A = json.loads(json.dumps(rng.choice(by_kind[ka])))
+    fa = S[ka][2]
+    force = None
+    if rng.random() < 0.2:  # both lines with an EMPTY list in the same field (a default / constant object standing for "no attributes"), grown in place
+        le = [f for f in fa if f.codec in ("CList", "CListIn", "CListInt", "CListIntIn") and f.minlen == 0 and f.name != "Onsets" and "tempoIndication" not in ka[0]]
+        if le:
+            f = rng.choice(le)
+            for row in A["fields"]:
+                if (row[0], row[1]) == (f.owner, f.name):
+                    row[2] = [row[2][0], []]
+            force = (f.owner, f.name, "Int" in f.codec)
+    mut_a = [(f.owner, f.name, f.codec) for f in fa if mutable_codec(f.codec) or (f.codec == "CStr" and isinstance_tempo(ka[0]))]
+    r = rng.random()
+    cands = [ka]
+    if mut_a and r >= 0.5:
+        sig = set((n, c) for o, n, c in mut_a)
+        cands = [k for k in keys_all if k != ka and (r >= 0.75 or k[1] == ka[1]) and any((f.name, f.codec) in sig and f.chars == g.chars for f in S[k][2] for g in fa if g.name == f.name and g.codec == f.codec)] or [ka]
+    kb = rng.choice(cands)
+    Bs = json.loads(json.dumps(rng.choice(by_kind[kb])))
+    shared = []
+    for row in Bs["fields"]:
+        fb = next(f for f in S[kb][2] if (f.owner, f.name) == (row[0], row[1]))
+        if not (mutable_codec(fb.codec) or row[2][0] == "tempo"):
+            continue
+        src = [ra for ra in A["fields"] for g in fa if (g.owner, g.name) == (ra[0], ra[1]) and g.name == fb.name and g.codec == fb.codec and g.chars == fb.chars
+               and (ka != kb or g.owner == fb.owner)]
+        if src and (rng.random() < 0.8 or (force and row[1] == force[1])):
+            pick = [ra for ra in src if force and ra[1] == force[1] and ra[0] == force[0]] or src
+            row[2] = json.loads(json.dumps(rng.choice(pick)[2]))
+            shared.append((row[0], row[1]))
+    for sp in (A, Bs):
+        for k in ("text", "nth", "marker"):
+            sp.pop(k, None)
+    case = {"kind": "parse_hist", "lines": {"A": A, "B": Bs}, "steps": []}
+    steps = case["steps"]
+    live = {}   # name -> (which, edits)
+    cnt = [0]
+
+    def level(which):
+        k = case["lines"][which]["kind"].partition(":")[0]
+        return "file" if k not in FILE_LEVEL_EXCLUDED and rng.random() < 0.5 else "class"
+
+    def parse(which):
+        name = "%s%d" % (which.lower(), cnt[0])
+        cnt[0] += 1
+        steps.append(["parse", name, which, level(which)])
+        live[name] = (which, [])
+        return name
+
+    def edit(name, line=None, conv=False):
+        which, edits = live[name]
+        if force and not conv and which == "A" and not any(st[0] == "edit" for st in steps):
+            x = (lambda: rng.choice([0, 7, rng.randint(0, 5000)])) if force[2] else (lambda: rng.choice(ATTRS + WORDS))
+            op = rng.choice([["append", x()], ["append", x()], ["insert0", x()], ["iadd", [x(), x()]]])
+            steps.append(["edit", name, force[0], force[1], op])
+            edits.append((force[0], force[1], op))
+            return True
+        key = (case["lines"][which]["kind"], tuple(case["lines"][which]["ver"]))
+        E = line if line is not None else hist_fresh(case, which, edits)
+        if conv:
+            cand = [(o, fn, None) for o, fn, v in hist_fields(E) if g_edit(rng, v) is not None]
+        else:
+            flds = S[key][2]
+            cand = [(f.owner, f.name, f) for f in flds if mutable_codec(f.codec) or
+                    isinstance(getattr(sub_of(E, f.owner), f.name, None), U.MatchTempoIndication)]
+            pref = [c for c in cand if (c[0], c[1]) in shared or which == "A"]
+            if pref and rng.random() < 0.75:
+                cand = pref
+            if not cand or rng.random() < 0.2:  # a new value for a field of this line object
+                setc = [f for f in flds if f.name != "Attribute" and (f.codec == "CInt" or (f.codec == "CStr" and f.name in ("Anchor", "Id")) or f.codec in ("CList", "CListIn", "CListInt", "CListIntIn", "CFrac"))]
+                if setc:
+                    f = rng.choice(setc)
+                    t = g_field(rng, key[0], f, {"ver": key[1]})
+                    if t[0] in ("frac", "fracsum") and any(c[0] > 64 or c[1] > 130 for c in ([t[1]] if t[0] == "frac" else t[1])):
+                        t = ["frac", [1, 8, None]]
+                    op = ["set", t]
+                    steps.append(["edit", name, f.owner, f.name, op])
+                    edits.append((f.owner, f.name, op))
+                    return True
+        if not cand:
+            return False
+        o, fn, f = rng.choice(cand)
+        op = g_edit(rng, getattr(sub_of(E, o), fn), ints=bool(f is not None and "Int" in f.codec))
+        if op is None:
+            return False
+        steps.append(["edit", name, o, fn, op])
+        if not conv:
+            edits.append((o, fn, op))
+        return True
+
+    if rng.random() < 0.35:  # both orders: what the first text leaves behind meets the second
+        parse("B")
+        parse("A")
+    else:
+        parse("A")
+        if rng.random() < 0.6:
+            parse("B")
+    for _ in range(rng.randint(1, 3)):
+        names = sorted(live)
+        pa = [n for n in names if live[n][0] == "A"]
+        edit(rng.choice(pa if (rng.random() < 0.6 or force) else names))
+        parse(rng.choice(["A", "B", "B"]))
+        if rng.random() < 0.4:
+            parse(rng.choice(["A", "B"]))
+    base = case["lines"]["A"]["kind"].partition(":")[0]
+    if tuple(case["lines"]["A"]["ver"]) != V1 and base not in ("snote", "note") and rng.random() < 0.5:
+        src = rng.choice([n for n in sorted(live) if live[n][0] == "A"])
+        try:
+            q = quiet_call(L1.to_v1, hist_fresh(case, "A", live[src][1]))
+        except Exception:
+            q = None
+        if q is not None:
+            steps.append(["to_v1", "q", src])
+            live["q"] = ("A", [])
+            if edit("q", line=q, conv=True):
+                a2 = parse("A")
+                parse("B")
+                steps.append(["to_v1", "q2", a2])  # the same text converted again: a fresh 1.0.0 line
+            del live["q"]
+    steps.append(["probe"])
+    return case
+
+
+def c_hist_term(case, obs):
+    """Coq term of one observed history for hist_check."""
+    whichs = sorted(case["lines"])
+    ls = []
+    for w in whichs:
+        sp = case["lines"][w]
+        ls.append("(%s, %s)" % (sname(sp["kind"], tuple(sp["ver"])), cstr(hist_text(case, w))))
+    steps, final = [], None
+    for o in obs:
+        if o[0] == "parse":
+            steps.append("(HParse %s, Some %s)" % (cnat(whichs.index(o[1])), clist(o[2])))
+        elif o[0] == "edit":
+            steps.append("(%s %s %s %s, None)" % ("HSet" if o[4] else "HEdit", cnat(o[1]), cnat(o[2]), o[3]))
+        elif o[0] == "nop":
+            steps.append("(HNop, None)")
+        else:
+            final = clist([copt(v, clist) for v in o[1]])
+    return "(%s, %s, %s)" % (clist(ls), clist(steps), final)
+
+
+def run_parse_histories(ctx, kept, n):
+    L0, L1, U, B, IM = mods()
+    S = schemas()
+    by_kind = {}
+    for sp in kept:
+        if "marker" not in sp:
+            by_kind.setdefault((sp["kind"], tuple(sp["ver"])), []).append(sp)
+    keys_all = sorted(by_kind)
+    keys_mut = [k for k in keys_all if any(mutable_codec(f.codec) for f in S[k][2]) or isinstance_tempo(k[0])]
+    del HIST_TERMS[:], HIST_KEPT[:]
+    if not keys_mut:
+        return
+    nbad = 0
+    earlier = []
+    for i in range(n):
+        case = g_parse_hist(ctx.rng, by_kind, keys_mut, keys_all)
+        ctx.evaluations += 1
+        ctx.nontrivial(json.dumps(case, sort_keys=True))
+        for st in case["steps"]:
+            if st[0] == "edit":
+                ctx.count("parse_history:edit_%s%s" % (st[4][0], "(%s)" % st[4][1] if st[4][0] == "attr" else ""))
+            else:
+                ctx.count("parse_history:step_%s%s" % (st[0], ("_" + st[3]) if st[0] == "parse" else ""))
+        if any(st[0] == "edit" and st[4][0] in ("append", "insert0", "iadd") and any(r[0] == st[2] and r[1] == st[3] and r[2][1] == [] for r in case["lines"]["A"]["fields"] if r[2][0] in ("list", "listint")) for st in case["steps"]):
+            ctx.count("parse_history:empty_list_grown_in_place")
+        ctx.count("parse_history:kind_%s" % case["lines"]["A"]["kind"].partition(":")[0])
+        ctx.count("parse_history:lines_%s" % ("of_the_same_kind_and_version" if case["lines"]["A"]["kind"] == case["lines"]["B"]["kind"] and case["lines"]["A"]["ver"] == case["lines"]["B"]["ver"]
+                                              else "of_different_kinds_or_versions"))
+        obs = []
+        try:
+            bad = exec_parse_hist(case, obs)
+        except Exception as e:
+            bad = "the history raises %r" % (e,)
+        if bad:
+            nbad += 1
+            ctx.count("parse_history:failing")
+            if nbad <= 2:
+                # what an earlier history left behind at module level is part of the input: shrink in a fresh process
+                res = hist_shrink(dict(case, prelude=[c for c in earlier if any(st[0] == "edit" for st in c["steps"])]))
+                if res and res.get("reproduced"):
+                    ctx.violation("parse history (the parsed fields are a function of the text and the version only): " + (res["complaint"] or bad), dict(res["case"], what="parse_history"))
+                else:
+                    ctx.violation("parse history (the parsed fields are a function of the text and the version only; seen only after the lines the other streams of this "
+                                  "run parsed before in the same process): " + bad, dict(case, what="parse_history"))
+            earlier.append(case)
+            continue
+        earlier.append(case)
+        try:
+            HIST_TERMS.append(c_hist_term(case, obs))
+            HIST_KEPT.append(dict(case, what="parse_history_model"))
+        except Mismatch:
+            ctx.count("parse_history:model_skipped(value of unexpected shape)")
+        if i < 2:
+            ctx.sample(case)
+
+
+def exec_file_hist(case, work):
+    """load_matchfile is a function of the CONTENT of the file: load, edit the loaded lines in place, load the unchanged file
+    again, write other lines to the same path, load again.  Returns None or the complaint."""
+    import os
+    import warnings
+    L0, L1, U, B, IM = mods()
+    path = os.path.join(work, "c07_file_history_%d.match" % os.getpid())
+
+    def load(texts):
+        with warnings.catch_warnings():
+            warnings.simplefilter("ignore")
+            return quiet_call(IM.load_matchfile, path)
+
+    def put(texts):
+        with open(path, "w") as f:
+            f.write("\n".join(texts) + "\n")
+
+    def shown(mf):
+        return sorted(set(l.matchline for l in mf.lines))
+    X, Y = case["texts_x"], case["texts_y"]
+    want_x, want_y = sorted(set(t for t in X if t)), sorted(set(t for t in Y if t))
+    vx, vy = tuple(case["ver"]), tuple(case.get("ver_y", case["ver"]))
+
+    def check(mf, texts, want, ver, what):
+        got_v = sorted(set(tuple(l.version) for l in mf.lines))
+        if got_v != [ver]:
+            return ("%s: a file of version %s%s gives line objects of version(s) %s" % (what, ".".join(map(str, ver)),
+                    "" if any("matchFileVersion" in t for t in texts) else " without a version line (documented default 0.1.0)", got_v))
+        got = shown(mf)
+        if got != want:
+            d = [t for t in got if t not in want] or ["(%d lines instead of %d)" % (len(got), len(want))]
+            return "%s: load_matchfile gives %r, which the file does not hold (it holds %r)" % (what, d[0], ([t for t in want if t not in got] or ["..."])[0])
+        return None
+    try:
+        put(X)
+        mf1 = load(X)
+        if check(mf1, X, want_x, vx, ""):
+            return None  # a plain file that is not read back: run_files reports that
+        for line in list(mf1.lines)[:case.get("edit_lines", 4)]:
+            for o, fn, v in hist_fields(line):
+                if isinstance(v, list) and (not v or isinstance(v[0], str)):
+                    v.append("x")
+                elif isinstance(v, U.FractionalSymbolicDuration):
+                    v.numerator = int(v.numerator) + 1
+                elif isinstance(v, (U.MatchKeySignature,)):
+                    v.fifths = (int(v.fifths) + 8) % 15 - 7
+                elif isinstance(v, int) and not isinstance(v, bool) and fn in ("Velocity", "Measure", "Time", "Onset"):
+                    setattr(sub_of(line, o), fn, v + 1)
+        bad = check(load(X), X, want_x, vx, "the file was not touched, the line objects of the first load were edited in place, second load")
+        if bad:
+            return bad
+        put(Y)
+        bad = check(load(Y), Y, want_y, vy, "other lines were written to the same path")
+        if bad:
+            return bad
+        put(X)
+        bad = check(load(X), X, want_x, vx, "the first lines were written to the path again")
+        if bad:
+            return bad
+    finally:
+        try:
+            os.remove(path)
+        except OSError:
+            pass
+    return None
+
+
+def run_file_histories(ctx, good, n_per_version):
+    L0, L1, U, B, IM = mods()
+    rng = ctx.rng
+    by_ver = {}
+    for spec in good:
+        if spec["kind"].partition(":")[0] not in FILE_LEVEL_EXCLUDED and spec["kind"] != "info:matchFileVersion":
+            by_ver.setdefault(tuple(spec["ver"]), []).append(spec)
+
+    def file_texts(ver, pool, tag):
+        objs = [construct("info:matchFileVersion", ver, {(None, "Attribute"): "matchFileVersion", (None, "Value"): U.Version(*ver)})]
+        for k, sp in enumerate(rng.choice(pool) for _ in range(rng.randint(5, 10))):
+            sp = json.loads(json.dumps(sp))
+            for fld in sp["fields"]:
+                if fld[1] in ("Anchor", "Id") and fld[2][0] == "str":
+                    fld[2][1] = "%s%s%d" % (fld[2][1], tag, k)
+            objs.append(construct(sp["kind"], tuple(sp["ver"]), {(o, n): to_py(t) for o, n, t in sp["fields"]}))
+        return [o.matchline for o in objs]
+    nbad = 0
+    for ver in V0S + [V1]:
+        pool = by_ver.get(ver, [])
+        mut = [sp for sp in pool if any(t[0] in ("list", "frac", "key") for o, n_, t in sp["fields"])]
+        if not pool:
+            continue
+        for fno in range(n_per_version):
+            try:
+                case = {"kind": "file_hist", "ver": list(ver), "texts_x": file_texts(ver, mut or pool, "u"), "texts_y": file_texts(ver, pool, "w")}
+            except Exception:
+                continue
+            ctx.evaluations += 1
+            ctx.count("file_history:%s" % ".".join(map(str, ver)))
+            ctx.nontrivial(("file_hist", json.dumps(case, sort_keys=True)))
+            try:
+                bad = exec_file_hist(case, ctx.work)
+            except Exception as e:
+                bad = None
+                ctx.count("file_history:raises")
+            if bad:
+                nbad += 1
+                if nbad <= 2:
+                    ctx.violation("match file of version %s, history load / edit / load / rewrite / load: %s" % (".".join(map(str, ver)), bad), dict(case, what="file_history"))
+    # what the last file left behind meets a file WITHOUT version line (documented default: 0.1.0)
+    if by_ver.get(V1) and by_ver.get((0, 1, 0)):
+        for fno in range(n_per_version):
+            try:
+                case = {"kind": "file_hist", "ver": list(V1), "ver_y": [0, 1, 0], "texts_x": file_texts(V1, by_ver[V1], "u"),
+                        "texts_y": file_texts((0, 1, 0), [sp for sp in by_ver[(0, 1, 0)] if not sp["kind"].startswith("info:")] or by_ver[(0, 1, 0)], "w")[1:]}
+            except Exception:
+                continue
+            ctx.evaluations += 1
+            ctx.count("file_history:1.0.0_then_0.1.0_without_version_line")
+            try:
+                bad = exec_file_hist(case, ctx.work)
+            except Exception as e:
+                bad = None
+                ctx.count("file_history:raises")
+            if bad and nbad < 2:
+                nbad += 1
+                ctx.violation("match files of version 1.0.0 and 0.1.0 (no version line), history load / edit / load / rewrite / load: %s" % bad, dict(case, what="file_history"))
+
+
 def run(ctx):
     ctx.rule = ("Schema-driven generation: for every reflected line class x format version (info/scoreprop/meta once per attribute; "
                 "219 schemas) N random objects, one value per field chosen by the field's codec (identifiers without separators, all "
@@ -2398,7 +3180,13 @@ def run(ctx):
                 "(note, snote, -note, trill, ornament, ...) put inside an identifier of the line; 6% of all identifiers hold such a word.  Files: per "
                 "version 2 (quick) / 30 files written with MatchFile.write and read with load_matchfile (version line; 0.1.0 every second file "
                 "without; unique ids; repeated and empty lines).  Versions: interpret_version on canonical, pre-1.0 and malformed texts, "
-                "get_version on version lines of every version in both spellings, on every generated info line and on the empty line.")
+                "get_version on version lines of every version in both spellings, on every generated info line and on the empty line.  "
+                "Parse histories (state carried between calls): two lines whose lists / durations / key and time signatures hold the same values (same kind 50%, "
+                "another kind or version 50%; every kind of line equally often; 20% with an empty list in both) are parsed at class and file level in either order, "
+                "one parsed object is edited in place (list methods, components of durations and signatures) or a field is assigned, the lines are parsed again, "
+                "pre-1.0 lines are converted, the copy edited, the text parsed and converted again, a closing probe edits any object two fields hold in common; "
+                "after every step every live object is judged from its own text and its own edits (each distinct history counts as non-trivial).  File histories: "
+                "load, edit the loaded lines, load again, other lines to the same path, load; 1.0.0 then 0.1.0 without version line.")
     ctx.trusted = ["Coq 8.16.1 kernel incl. vm_compute", "reflector + generators + Python<->Coq value printers in harness/props/c07.py",
                    "Python re / str.format (the model's scanner is validated against them on generated lines only)",
                    "determinism of the tabulated key-signature functions",
@@ -2409,6 +3197,8 @@ def run(ctx):
                        "other floats (decimal boundaries, binary ties) are checked for the rounded value and the fixpoint only",
                        "bound_integers is modelled with exact rationals; cases within 1e-6 of a rounding/argmin tie are counted and not compared with the model",
                        "negative durations are outside the format (digits only)",
+                       "histories: a line made by to_v1 and its source share field objects in the unchanged tree (not forbidden by the statement): after an in-place "
+                       "edit of one of the two the other is not judged; everything else is judged against fresh constructor-built objects with the same edits",
                        "identifiers hold no separators (comma, parentheses, brackets) and info strings hold no complete line of another kind; the order of "
                        "the lines of a file is not compared; only the six format versions of the tables are claimed"]
     ctx.matchers["C07-K1"] = lambda r: isinstance(r, dict) and r.get("kind") == "frac_prog" and r.get("what") == "empty_text"
@@ -2423,7 +3213,7 @@ def run(ctx):
             ctx.violation("the line kind %s of format version %s is gone from the tables of the library" % (kind, ".".join(map(str, ver))),
                           {"kind": kind, "ver": list(ver), "what": "catalogue"}, no_input=True)
     ctx.log("reflection done")
-    ok, why = ctx.coq_props(expect_min=68)
+    ok, why = ctx.coq_props(expect_min=75)
     ctx.log("proofs checked")
     key_oracle(ctx, rows)
     rng = ctx.rng
@@ -2481,7 +3271,9 @@ def run(ctx):
     for s in kept[:3]:
         ctx.sample(s)
     ctx.log("lines run on the implementation: %d (+ %d with markers)" % (len(specs), len(mspecs)))
+    nhist = 160 if ctx.tier == "quick" else 3000
     if not ok:
+        run_parse_histories(ctx, kept, nhist)
         if len(ctx.violations) == nviol0:
             ctx.violation("proof obligations of Props/C07.v no longer check: " + why, {"theorem_or_build": why}, no_input=True)
         return
@@ -2524,6 +3316,15 @@ def run(ctx):
     run_fracs(ctx, 600 if ctx.tier == "quick" else 12000)
     ctx.log("duration sums done")
     run_frac_programs(ctx, 300 if ctx.tier == "quick" else 6000)
+    run_file_histories(ctx, good, 1 if ctx.tier == "quick" else 12)
+    # last, because these histories EDIT parsed lines: whatever a defective parser keeps at module level must not reach the other streams
+    run_parse_histories(ctx, kept, nhist)
+    ctx.log("parse histories run on the implementation: %d for the model" % len(HIST_TERMS))
+    failing = [] if not HIST_TERMS else ctx.coq_failing("hist", "From PV Require Import Model.C07 Model.C07_Hist Gen.C07_Schemas.", "", HIST_TERMS, "hist_check key_tab", shard=40)
+    ctx.obligation("correspondence: pure history machine of the model (every parse = parse_line of the text, an edit changes the edited object only) = "
+                   "implementation on %d histories (parse, edit a parsed line in place, parse again; two lines sharing field texts)" % len(HIST_TERMS), not failing, failing[:5])
+    for i in failing[:5]:
+        ctx.violation("model and implementation disagree on a history of parses and in-place edits (a parsed line depends on more than its text and its own edits)", HIST_KEPT[i])
     ctx.extra["class_x_version_coverage"] = {k: v for k, v in sorted(ctx.counts.items()) if "@" in k}
     ctx.extra["schemas_reflected"] = len(S)
 
@@ -2607,6 +3408,22 @@ def replay(obj):
             print("interpret_version(%r) = %s" % (r["text"], tuple(U.interpret_version(r["text"]))))
         except Exception as e:
             print("interpret_version(%r) raises %r" % (r["text"], e))
+    elif r.get("kind") == "file_hist":
+        print("file X:\n  " + "\n  ".join(r["texts_x"]))
+        print("file Y:\n  " + "\n  ".join(r["texts_y"]))
+        print("load X, edit the loaded lines in place, load X again, write Y to the same path, load, write X again, load")
+        print("oracle :", exec_file_hist(r, os.environ.get("VERIF_WORK", "/verif/.work")) or "no complaint")
+    elif r.get("kind") == "parse_hist":
+        for w in sorted(r["lines"]):
+            print("line %s (%s %s): %s" % (w, r["lines"][w]["kind"], ".".join(map(str, r["lines"][w]["ver"])), hist_text(r, w)))
+        for k, st in enumerate(r["steps"]):
+            print("step %d: %s" % (k, st[1] + " = parse line " + st[2] + " (%s level)" % st[3] if st[0] == "parse" else
+                                   st[1] + " = to_v1(" + st[2] + ")" if st[0] == "to_v1" else
+                                   "edit in place, through one of them, an object that two fields hold in common (if there is one)" if st[0] == "probe" else
+                                   st[1] + "." + describe_edit(st[2], st[3], st[4])))
+        for pc in r.get("prelude", ()):
+            print("before, in the same process: lines", [hist_text(pc, w) for w in sorted(pc["lines"])], "steps", json.dumps(pc["steps"]))
+        print("oracle :", exec_parse_hist_full(r) or "no complaint")
     elif r.get("kind") == "frac_prog":
         F = U.FractionalSymbolicDuration
         env = {}
